@@ -43,6 +43,13 @@ def ephemeral_guards(body):
             ms = m if isinstance(m, tuple) else (m,)
             if "Ephemeral" not in ms:
                 edges.append((bb, t, lab))
+    # ... and the `None` edge of the Option test that precedes it (`matches!(x.ttl, Some(TTL::Ephemeral))`): no ttl is not ephemeral
+    for bb, si in body.switches():
+        if si["kind"] == "variant" and "option::Option" in (si.get("adt") or "") and q.last_field(si["cond"]) == "ttl":
+            for (t, lab, m) in si["edges"]:
+                ms = m if isinstance(m, tuple) else (m,)
+                if ms == ("None",):
+                    edges.append((bb, t, lab))
     return edges
 
 
@@ -52,8 +59,7 @@ def r1(run):
     for (b, c) in callers:
         fn = run.facts.enclosing_fn(b)
         run.touch(b)
-        g = ephemeral_guards(b)
-        ok = bool(g) and q.dominated(b, c.bb, via_edges=g)
+        ok = never_for_ephemeral(b, c.bb)
         run.ob("%s|call:Store::insert_frame" % fn, ok, c.sp,
                "the frame reaches Store::insert_frame only through a `ttl != Ephemeral` edge in %s" % fn, reason="ephemeral-may-be-stored")
     # the batch insert itself lives only in insert_frame
@@ -68,8 +74,7 @@ def r1(run):
         if fn == C.INSERT_FRAME:
             continue
         for c in q.live_calls(b, C.BATCH_INSERT):
-            g = ephemeral_guards(b)
-            run.ob("%s|batch-insert|not-ephemeral" % fn, bool(g) and q.dominated(b, c.bb, via_edges=g), c.sp,
+            run.ob("%s|batch-insert|not-ephemeral" % fn, never_for_ephemeral(b, c.bb), c.sp,
                    "a partition insert outside Store::insert_frame is reached only through a `ttl != Ephemeral` edge", reason="ephemeral-may-be-stored")
     # every Ok return of append is preceded by the broadcast
     ab = C.body_or_fail(run, C.APPEND)
@@ -179,6 +184,32 @@ def r5(run):
                 run.ob("%s|synthetic(%s)|ephemeral" % (run.facts.enclosing_fn(b), topic[0]), eph, c.sp, "synthetic frame %s is built with TTL::Ephemeral" % topic[0],
                        reason="synthetic-frame-not-ephemeral")
     run.floor("synthetic frame construction sites under Store::read", n, 2)
+
+
+def ephemeral_edges(body):
+    """Edges on which `<x>.ttl == Some(Ephemeral)` is known."""
+    edges = []
+    for bb, si in body.switches():
+        if si["kind"] == "bool":
+            cmp_ = q.comparison(si["cond"])
+            if not cmp_ or cmp_[0] not in ("eq", "ne"):
+                continue
+            sides = [strip(cmp_[1]), strip(cmp_[2])]
+            if any(q.last_field(s2) == "ttl" for s2 in sides) and any(x[0] == "agg" and x[1].get("adt") == C.TTL and x[1].get("variant") == "Ephemeral" for s2 in sides for x in walk(s2)):
+                edges += q.edge_triples(body, bb, lambda m, rel=cmp_[0]: m is (rel == "eq"))
+        elif si["kind"] == "variant" and si.get("adt") == C.TTL and any(x[0] == "field" and x[2] == "ttl" for x in walk(si["cond"])):
+            for (t, lab, m) in si["edges"]:
+                ms = set(m) if isinstance(m, tuple) else {m}
+                if ms == {"Ephemeral"}:
+                    edges.append((bb, t, lab))
+    return edges
+
+
+def never_for_ephemeral(body, bb):
+    """Is block `bb` unreachable for an ephemeral frame?  Every path from the entry to it passes an edge on which the ttl is known
+    NOT to be Ephemeral (dominance is path-sensitive through `matches!` flags)."""
+    g = ephemeral_guards(body)
+    return bool(g) and q.dominated(body, bb, via_edges=g)
 
 
 GC_WORKER = "xs::store::spawn_gc_worker"
